@@ -93,6 +93,7 @@ fn main() {
                 }
                 "C12" => {
                     drive::drive_c12(&t, &mut m, &mut sink);
+                    drive::drive_c12_wide(&t, &mut sink, &mut stats.execs);
                     drive2::drive_focus_histories(&t, &mut sink, &["convert", "clone", "new_inner"], &[], &all, t.q(170, 1700), t.q(12, 20), &mut stats);
                 }
                 "C13" => {
